@@ -7,6 +7,7 @@
    comparison of the compare functions is exclusive, or where a method table row / the dispatch order changed).
    IEEE arithmetic on two plain numbers is not the subject of any theorem (tested against Lean `Float` and Python). -/
 import JanetModel.Int64.Lemmas
+import JanetModel.Int64.LemmasN
 import JanetModel.Int64.LemmasQ
 namespace JanetModel.Props.C14
 open JanetModel.Int64 JanetModel.Gen.Int64
@@ -177,6 +178,72 @@ theorem nary_methods_wrap (k : Kind) (a : Int) (bs : List Int) :
       BitVec.ofInt 64 r = BitVec.ofInt 64 (bs.foldl (· * ·) a)) :=
   ⟨methodLoop_add k a bs, methodLoop_mul k a bs⟩
 
+/-- every looping method (`OPMETHOD`, `DIVMETHOD`, `DIVMETHOD_SIGNED`: `janet_arity(argc, 2, -1)`) called with n ≥ 3
+    operands of any mix (numbers, strings, boxed integers of either kind) is the **left fold of the two-argument method
+    call**: `(:op a0 a1 a2 ...)` = `(:op (:op (:op a0 a1) a2) ...)`, with the same error at the same place (an operand
+    that does not convert, a zero divisor, INT64_MIN / -1) and the same undefined operation if a guard is missing — for
+    any configuration, provided the zero test inside the loop agrees with the two-argument form (`ZeroConsistent`:
+    an early `return` on a zero divisor does not). -/
+theorem nary_methods_are_left_folds (c : Cfg) (k : Kind) (f mac name oper : String)
+    (hrow : lookupInstance f = some (mac, kindName k, name, oper)) (hmac : IsLoopMacro mac)
+    (hz : mac = "OPMETHOD" ∨ ZeroConsistent (loopStep c k mac name oper) (loopZero c name))
+    (a0 a1 a2 : Val) (rest : List Val) :
+    callCfunN c k f (a0 :: a1 :: a2 :: rest) =
+      (a2 :: rest).foldl (fun acc z => acc.bind (fun v => callCfun2 c k f v z)) (callCfun2 c k f a0 a1) :=
+  callCfunN_eq_fold c k f mac name oper hrow hmac hz a0 a1 a2 rest
+
+/-- the missing part on a tree whose loop `return`s at a zero divisor (janet before 2a2188c): `(:mod (int/u64 7) 0 3)` is 7,
+    the fold `(:mod (:mod (int/u64 7) 0) 3)` is 1; and a later operand that does not convert is not even looked at -/
+theorem nary_mod_not_fold_on_pinned :
+    callCfunN cfgPinned .u64 "u64_mod" [.u64 7, .s64 0, .u64 3] = .ok (.u64 7) ∧
+    ([Val.u64 3].foldl (fun acc z => acc.bind (fun v => callCfun2 cfgPinned .u64 "u64_mod" v z))
+        (callCfun2 cfgPinned .u64 "u64_mod" (.u64 7) (.s64 0))) = .ok (.u64 1) ∧
+    callCfunN cfgPinned .u64 "u64_mod" [.u64 7, .s64 0, .str [97]] = .ok (.u64 7) := by
+  refine ⟨by decide, by decide, by decide⟩
+
+/-! ## chained comparators -/
+
+/-- `(< x y z ...)`, `(<= ...)`, `(> ...)`, `(>= ...)`, `(= ...)`, `(not= ...)` on any values: the **conjunction of the
+    adjacent comparisons** (`vm_compop` resp. `janet_equals` on each adjacent pair; `not=` is its negation) -/
+theorem chained_comparators_are_conjunctions (c : Cfg) (N : NumOps) (x : Val) (rest : List Val) :
+    (∀ op ∈ ["<", "<=", ">", ">="],
+      evalFn c N op (x :: rest) = .ok (.bool ((adjacentPairs x rest).all (fun p => primCmp c op p.1 p.2)))) ∧
+    evalFn c N "=" (x :: rest) = .ok (.bool ((adjacentPairs x rest).all (fun p => janetEquals p.1 p.2))) ∧
+    evalFn c N "not=" (x :: rest) = .ok (.bool (!(adjacentPairs x rest).all (fun p => janetEquals p.1 p.2))) := by
+  refine ⟨fun op hop => ?_, ?_, ?_⟩
+  · simp only [List.mem_cons, List.mem_nil_iff, or_false] at hop
+    rcases hop with rfl | rfl | rfl | rfl
+    all_goals
+      refine Eq.trans (b := comparatorLoop (fun a b => .ok (.bool (primCmp c _ a b))) false x rest) rfl ?_
+      rw [comparatorLoop_conj]; simp
+  · refine Eq.trans (b := comparatorLoop (fun a b => .ok (.bool (janetEquals a b))) false x rest) rfl ?_
+    rw [comparatorLoop_conj]; simp
+  · refine Eq.trans (b := comparatorLoop (fun a b => .ok (.bool (janetEquals a b))) true x rest) rfl ?_
+    rw [comparatorLoop_conj]; simp
+
+/-- evaluated left to right, **first failure decides**: if the adjacent comparisons of `x :: pre` all hold and the next one
+    (`a` = last of `x :: pre`, against `b`) does not answer true, the loop answers right there — `false` for a comparator
+    (`true` for `not=`), or the error of that step — whatever operands `suf` follow -/
+theorem chained_comparison_short_circuits (step : Val → Val → Res Val) (invert : Bool) (x : Val) (pre : List Val) (a b : Val)
+    (suf : List Val) (hlast : (x :: pre).getLast? = some a)
+    (hpre : ∀ p ∈ adjacentPairs x pre, step p.1 p.2 = .ok (.bool true)) (hstop : step a b ≠ .ok (.bool true)) :
+    comparatorLoop step invert x (pre ++ b :: suf) = chainStop invert (step a b) :=
+  comparatorLoop_first_failure step invert x pre a b suf hlast hpre hstop
+
+/-- boot.janet's polymorphic chains `compare<`, `compare<=`, `compare=`, `compare>`, `compare>=` are the same loop with
+    the step `(op (compare x y) 0)` (so the two theorems above apply to them as well, errors of `compare` included) -/
+theorem poly_comparators_are_chains (c : Cfg) (N : NumOps) (x : Val) (rest : List Val) :
+    ∀ p ∈ [("compare<", "JOP_LESS_THAN"), ("compare<=", "JOP_LESS_THAN_EQUAL"), ("compare=", "JOP_EQUALS"),
+           ("compare>", "JOP_GREATER_THAN"), ("compare>=", "JOP_GREATER_THAN_EQUAL")],
+      evalFn c N p.1 (x :: rest) = comparatorLoop (polyStep c N p.2) false x rest := by
+  intro p hp
+  rw [← compareReduce_eq_loop]
+  simp only [List.mem_cons, List.mem_nil_iff, or_false] at hp
+  rcases hp with rfl | rfl | rfl | rfl | rfl <;> rfl
+
+example : evalFn cfgGen ⟨fun _ _ => 0, fun _ _ => 0, fun _ _ => 0, fun _ _ => 0, fun _ => 0, fun _ _ => 0⟩ "<"
+    [.s64 1, .s64 2, .s64 2, .str [120]] = .ok (.bool false) := by decide
+
 /-! ## the VM's 32-bit bitwise opcodes on plain numbers
 
 `bitop32` is `_vm_bitop`: left operand must pass `janet_checkintrange` (`janet_checkuintrange` for `brushift`), right operand
@@ -291,6 +358,48 @@ theorem compare_mixed_correct_rat (x : Int) (b : Nat) :
   · rw [compare_mixed_correct x hx b (by rw [h]; simp), h]; rfl
   · rw [compare_mixed_correct_unsigned x hx b (by rw [h]; simp), h, cmpIntDbl_eq_cmpQ]
   · rw [compare_mixed_correct_unsigned x hx b (by rw [h]; simp), h]; rfl
+
+/-! the zero test inside each division loop of the current tree agrees with the two-argument form -/
+theorem zc_u_div : ZeroConsistent (loopStep cfgGen .u64 "DIVMETHOD" "div" "/") (loopZero cfgGen "div") :=
+  fun a => (JanetModel.Int64.div_zero_errors true a).2.2.2.1
+theorem zc_u_rem : ZeroConsistent (loopStep cfgGen .u64 "DIVMETHOD" "rem" "%") (loopZero cfgGen "rem") :=
+  fun a => (JanetModel.Int64.div_zero_errors true a).2.2.2.2.1
+theorem zc_s_div : ZeroConsistent (loopStep cfgGen .s64 "DIVMETHOD_SIGNED" "div" "/") (loopZero cfgGen "div") :=
+  fun a => (JanetModel.Int64.div_zero_errors cfgGen.guardDiv a).2.1
+theorem zc_s_rem : ZeroConsistent (loopStep cfgGen .s64 "DIVMETHOD_SIGNED" "rem" "%") (loopZero cfgGen "rem") :=
+  fun a => (JanetModel.Int64.div_zero_errors cfgGen.guardDiv a).2.2.1
+/-- ★ does not check on a tree where the loop `return`s at a zero divisor (DIVZERO_mod inside the `for`) -/
+theorem zc_u_mod : ZeroConsistent (loopStep cfgGen .u64 "DIVMETHOD" "mod" "%") (loopZero cfgGen "mod") :=
+  fun a => (JanetModel.Int64.div_zero_errors true a).2.2.2.2.2
+
+/-- ★ on the current source every looping method of both types — 10 on int/s64, 11 on int/u64, `mod` included — is the
+    left fold of its two-argument call, for every argument list of length ≥ 3.  Does not check on a tree where the loop
+    ends the call at a zero divisor of `mod` (the defect fixed by 2a2188c: `(:mod (int/u64 7) 0 3)` was 7). -/
+theorem nary_mod_is_left_fold (a0 a1 a2 : Val) (rest : List Val) :
+    ∀ p ∈ [(Kind.s64, "s64_add"), (.s64, "s64_sub"), (.s64, "s64_mul"), (.s64, "s64_div"), (.s64, "s64_rem"), (.s64, "s64_and"),
+           (.s64, "s64_or"), (.s64, "s64_xor"), (.s64, "s64_lshift"), (.s64, "s64_rshift"),
+           (.u64, "u64_add"), (.u64, "u64_sub"), (.u64, "u64_mul"), (.u64, "u64_div"), (.u64, "u64_rem"), (.u64, "u64_mod"),
+           (.u64, "u64_and"), (.u64, "u64_or"), (.u64, "u64_xor"), (.u64, "u64_lshift"), (.u64, "u64_rshift")],
+      callCfunN cfgGen p.1 p.2 (a0 :: a1 :: a2 :: rest) =
+        (a2 :: rest).foldl (fun acc z => acc.bind (fun v => callCfun2 cfgGen p.1 p.2 v z)) (callCfun2 cfgGen p.1 p.2 a0 a1) := by
+  intro p hp
+  simp only [List.mem_cons, List.mem_nil_iff, or_false] at hp
+  rcases hp with rfl | rfl | rfl | rfl | rfl | rfl | rfl | rfl | rfl | rfl | rfl | rfl | rfl | rfl | rfl | rfl | rfl | rfl | rfl | rfl | rfl
+  all_goals first
+    | exact callCfunN_eq_fold cfgGen _ _ "OPMETHOD" _ _ rfl (Or.inl rfl) (Or.inl rfl) a0 a1 a2 rest
+    | exact callCfunN_eq_fold cfgGen _ _ "DIVMETHOD_SIGNED" "div" _ rfl (Or.inr (Or.inr rfl)) (Or.inr zc_s_div) a0 a1 a2 rest
+    | exact callCfunN_eq_fold cfgGen _ _ "DIVMETHOD_SIGNED" "rem" _ rfl (Or.inr (Or.inr rfl)) (Or.inr zc_s_rem) a0 a1 a2 rest
+    | exact callCfunN_eq_fold cfgGen _ _ "DIVMETHOD" "div" _ rfl (Or.inr (Or.inl rfl)) (Or.inr zc_u_div) a0 a1 a2 rest
+    | exact callCfunN_eq_fold cfgGen _ _ "DIVMETHOD" "rem" _ rfl (Or.inr (Or.inl rfl)) (Or.inr zc_u_rem) a0 a1 a2 rest
+    | exact callCfunN_eq_fold cfgGen _ _ "DIVMETHOD" "mod" _ rfl (Or.inr (Or.inl rfl)) (Or.inr zc_u_mod) a0 a1 a2 rest
+
+/-- the list above is the set of looping instantiations of the current source (nothing loops that is not covered) -/
+theorem nary_rows_complete :
+    (instances.filter (fun r => r.2.1 == "OPMETHOD" || r.2.1 == "DIVMETHOD" || r.2.1 == "DIVMETHOD_SIGNED")).map (fun r => (r.2.2.1, r.1)) =
+      [("s64", "s64_add"), ("s64", "s64_sub"), ("s64", "s64_mul"), ("s64", "s64_div"), ("s64", "s64_rem"), ("s64", "s64_and"),
+       ("s64", "s64_or"), ("s64", "s64_xor"), ("s64", "s64_lshift"), ("s64", "s64_rshift"),
+       ("u64", "u64_add"), ("u64", "u64_sub"), ("u64", "u64_mul"), ("u64", "u64_div"), ("u64", "u64_rem"), ("u64", "u64_mod"),
+       ("u64", "u64_and"), ("u64", "u64_or"), ("u64", "u64_xor"), ("u64", "u64_lshift"), ("u64", "u64_rshift")] := by decide
 
 /-- the method tables of the current source: every binary operator has its reversed variant bound to the function with
     swapped operands (non-commutative operators) or to the same function (commutative ones); no reversed shift methods;
